@@ -51,7 +51,27 @@ def py_envval(U, ev, dim, leaf=None):
     leaf = leaf or (lambda q: py_qty(U, q, dim))
     if "scalar" in ev:
         return leaf(ev["scalar"])
-    return {k: leaf(q) for k, q in ev["dict"]}
+    # adjacent entries stating the same quantity are handed over under one grouped key ("e0, e1": the documented way to give several
+    # environments one value), with or without blanks around the comma; the description itself keeps one entry per environment
+    import json
+    import zlib
+    out, entries, i = {}, ev["dict"], 0
+    while i < len(entries):
+        j = i + 1
+        while j < len(entries) and json.dumps(entries[j][1], sort_keys=True) == json.dumps(entries[i][1], sort_keys=True):
+            j += 1
+        keys = [k for k, _ in entries[i:j]]
+        if len(keys) > 1 and all(k != "" for k in keys):
+            style = zlib.crc32("|".join(keys).encode()) % 4
+            key = [",", ", ", " , ", " ,"][style].join(keys)
+            if style == 2:
+                key = " " + key + " "
+            out[key] = leaf(entries[i][1])
+        else:
+            for k, q in entries[i:j]:
+                out[k] = leaf(q)
+        i = j
+    return out
 
 
 # ------------------------------------------------------------------------------ random descriptions
@@ -85,7 +105,11 @@ def rand_envval(rng, envs, mk, p_dict=0.5):
     if rng.random() < 0.5:
         keys.append("default")
     rng.shuffle(keys)
-    return {"dict": [[k, mk()] for k in keys]}
+    entries = [[k, mk()] for k in keys]
+    if len(entries) >= 2 and rng.random() < 0.3:
+        import copy
+        entries[1][1] = copy.deepcopy(entries[0][1])       # two environments with one value (handed over under a grouped key)
+    return {"dict": entries}
 
 
 def rand_cubic(rng):
